@@ -201,6 +201,10 @@ func RunVerifyCase(cs Case, cfg VerifyCfg) Result {
 				continue
 			}
 			if err := gen.SelfCheck(c); err != nil {
+				if cs.X["lenient"] == true { // randomly drawn combination beyond the enumerated budget: count it as unrealisable
+					res.Skip = "self-check: " + err.Error()
+					continue
+				}
 				panic(fmt.Sprintf("GENERATOR SELF-CHECK FAILED case %d world %v: %v", cs.ID, cs.W, err))
 			}
 			extra := Event{"real": vi*2 + map[bool]int{true: 1, false: 0}[o["now"] == "unset"]} // one realisation = one build of the world
